@@ -467,25 +467,35 @@ package jmespath
 //@   decreases 4*nodeRank(node) + 3
 //@   call (*functionCaller).CallFunction bound = nodeRank(node)
 //@   ensures {C16} [json-result] err == nil ==> specResultOK(node, result)
+//@   ensures {C01,C02,C07,C08,C11,C15} [fails-exactly-when-the-specification-fails] pureTree(node) ==> ((err == nil) <==> snd(specEval(node, value)))
+//@   ensures {C01,C02,C07,C08,C15} [value-the-specification-assigns] pureTree(node) && err == nil ==> same(result, fst(specEval(node, value)))
 //@   loop 1 invariant [args] !isNil(resolvedArgs) && len(resolvedArgs) == \k && (forall j int :: 0 <= j && j < len(resolvedArgs) ==> specArgOK(resolvedArgs[j]) && (isExpRef(resolvedArgs[j]) ==> nodeRank(refOf(resolvedArgs[j])) < nodeRank(node)))
 //@   loop 1 decreases len(node.children) - \k
 //@   loop 2 invariant [filter] !isNil(collected) && allJSON(collected, len(collected))
+//@   loop 2 invariant {C02,C07} [filter-spec] pureTree(node) ==> same(specFilterFrom(compareNode, node.children[1], sliceType, \k, collected), specFilterFrom(compareNode, node.children[1], sliceType, 0, specEmptyList()))
 //@   loop 2 decreases arrLen(left) - \k
 //@   loop 3 invariant [flatten] !isNil(flattened) && allJSON(flattened, len(flattened))
+//@   loop 3 invariant {C02} [flatten-spec] same(specFlattenFrom(sliceType, \k, flattened), specFlattenFrom(sliceType, 0, specEmptyList()))
 //@   loop 3 decreases arrLen(left) - \k
 //@   loop 5 invariant [hash] !isNil(collected) && 0 <= len(collected) && (forall k string :: mapHas(collected, k) ==> specJSONVal(collected[k]))
+//@   loop 5 invariant {C01} [hash-spec] pureTree(node) ==> same(specHashFrom(node.children, \k, value, collected), specHashFrom(node.children, 0, value, emptyObj()))
 //@   loop 5 decreases len(node.children) - \k
 //@   loop 6 invariant [list] !isNil(collected) && allJSON(collected, len(collected))
+//@   loop 6 invariant {C01} [list-spec] pureTree(node) ==> same(specListFrom(node.children, \k, value, collected), specListFrom(node.children, 0, value, specEmptyList()))
 //@   loop 6 decreases len(node.children) - \k
 //@   loop 7 invariant [pipe] specJSONVal(result)
+//@   loop 7 invariant {C15,C01} [pipe-spec] pureTree(node) ==> same(specPipeFrom(node.children, \k, result), specPipeFrom(node.children, 0, value))
 //@   loop 7 decreases len(node.children) - \k
 //@   loop 8 invariant [projection] !isNil(collected) && allJSON(collected, len(collected))
+//@   loop 8 invariant {C02} [projection-spec] pureTree(node) ==> same(specProjFrom(node.children[1], sliceType, \k, collected), specProjFrom(node.children[1], sliceType, 0, specEmptyList()))
 //@   loop 8 decreases arrLen(left) - \k
-//@   loop 9 invariant [slice-params] 0 <= \k && \k <= 3
+//@   loop 9 invariant [slice-params] 0 <= \k && \k <= 3 && len(sliceParams) == 3 && (forall j int :: 0 <= j && j < \k ==> same(sliceParams[j], specSlicePart(parts, j))) && (forall j int :: \k <= j && j < 3 ==> same(sliceParams[j], specSlicePart(parts, 5)))
 //@   loop 9 decreases 3 - \k
 //@   loop 10 invariant [values] !isNil(values) && allJSON(values, len(values))
+//@   loop 10 invariant {C02} [values-spec] same(specObjValuesFrom(mapType, \k, values), specObjValuesFrom(mapType, 0, specEmptyList()))
 //@   loop 10 decreases objSize(left) - \k
 //@   loop 11 invariant [value-projection] !isNil(collected) && allJSON(collected, len(collected))
+//@   loop 11 invariant {C02} [value-projection-spec] pureTree(node) ==> same(specProjFrom(node.children[1], values, \k, collected), specProjFrom(node.children[1], values, 0, specEmptyList()))
 //@   loop 11 decreases len(values) - \k
 
 // ---------------------------------------------------------------------------
